@@ -151,6 +151,11 @@ ClientChoose(t) ==
         /\ K' = SetPc(bump([K EXCEPT !.T[t].reg = Err("E")]), t, "unwind")
         /\ hist' = Append(hist, H(t, "raise", 0, 0, 0))
         /\ UNCHANGED <<L, E, pst, pbad>>
+     \/ /\ n < MaxOps /\ "raisegrp" \in Ops      \* an exception group whose only leaf is a NATIVE CancelledError
+        /\ K' = SetPc(bump([K EXCEPT !.T[t].reg = [k |-> "exc", c |-> "group", a |-> FALSE, e |-> {"N"}]]),
+                      t, "unwind")
+        /\ hist' = Append(hist, H(t, "raisegrp", 0, 0, 0))
+        /\ UNCHANGED <<L, E, pst, pbad>>
      \/ /\ n < MaxOps /\ "probe" \in Ops
         /\ K' = bump(K)
         /\ Feed([ev |-> "probe", t |-> t, nc |-> K.T[t].nc, effdl |-> EffDeadlineFrom(K, Cur(K, t), INF),
@@ -192,6 +197,14 @@ ClientUnwind(t) ==
                               [Top(K, t) EXCEPT !.b.exc = x, !.pc = "cleaned"]),
                        t, "cleaned", Frame("csc", "start", 0, 0))
           /\ UNCHANGED <<pst, pbad, E>>
+     ELSE IF tag.cl = 2 /\ IsCancel(x)
+     THEN \* except CancelledError: try: await event.wait() (NOT shielded: must be interrupted again)
+          \*                        except CancelledError: pass; raise
+          /\ K' = Call(SetTop([K EXCEPT !.S[t][d].tag.cl = 0], t,
+                              [Top(K, t) EXCEPT !.b.exc = x, !.pc = "rewaited"]),
+                       t, "rewaited", Frame("ev_wait", "start", 0, 0))
+          /\ Feed([ev |-> "opstart", t |-> t, op |-> "rewait"])
+          /\ UNCHANGED E
      ELSE LET r == ScopeExit(K, t, x)
               tmo == tag.kind = "fail" /\ r.caught /\ r.q.now >= K.S[t][d].dl
               out == IF tmo THEN Err("TimeoutError") ELSE r.reg
@@ -212,6 +225,16 @@ ClientCleaned(t) ==
          saved == Top(K, t).b.exc IN
      K' = SetPc([K EXCEPT !.T[t].reg = IF IsExc(r) THEN r ELSE saved], t, "unwind")
   /\ UNCHANGED <<L, E, hist, pst, pbad>>
+
+\* back from the unshielded wait inside the exception handler: whatever it did, the original
+\* cancellation continues (a different exception, e.g. a native cancellation, replaces it)
+ClientRewaited(t) ==
+  /\ At(K, t, "client", "rewaited")
+  /\ LET r == Reg(K, t)
+         saved == Top(K, t).b.exc IN
+     /\ K' = SetPc([K EXCEPT !.T[t].reg = IF IsExc(r) /\ ~IsAnyioCancel(r) THEN r ELSE saved], t, "unwind")
+     /\ Feed([ev |-> "opend", t |-> t, op |-> "rewait", res |-> ResName(r), cc |-> CC(K, t), gc |-> <<>>])
+  /\ UNCHANGED <<L, E, hist>>
 
 LibStep(t) ==
   \/ /\ HelperEnabled(K, t)
@@ -269,7 +292,7 @@ Next ==
   \/ (~Start /\ Cycle)
   \/ RunHandle
   \/ \E t \in Task : ClientInit(t) \/ ClientChoose(t) \/ ClientRet(t) \/ ClientUnwind(t)
-                     \/ ClientCleaned(t) \/ LibStep(t)
+                     \/ ClientCleaned(t) \/ ClientRewaited(t) \/ LibStep(t)
   \/ \E t \in Task : EnvCancel(t) \/ EnvNative(t)
   \/ (~Start /\ Quiesce)
 
